@@ -815,7 +815,15 @@ class C07(PropertyCheck):
 
     # ---------------------------------------------------------------------------------
     def oracle_replay(self, ctx, w):
-        return check_property(w)
+        """the property for the witness run FROM SCRATCH (what `./check C07 --replay` does): a failure seen after
+        other calls of this process is confirmed in a fresh interpreter"""
+        before = len(CALLS)
+        f, d = check_property(w)
+        if f and before > 0:
+            ff, _ = fresh_fails(w)
+            if ff is False:
+                return False, "passes from scratch (failed only after earlier calls of this process: " + d + ")"
+        return f, d
 
     def finding_matches(self, witness, finding):
         if finding.get("class") == "conditioned-handled-gate":
